@@ -43,6 +43,9 @@ def buffered_view(rng, adocs, keys):
     over the union), and close() leaves nothing unsaved."""
     from whoosh import writing
     cases = []
+    # (documents without column values: what happens to those in a BufferedWriter is a recorded finding that
+    # would otherwise end two out of three of these runs before anything else is looked at)
+    adocs = dict((k, dict(d, s={}, c={}, ovr=[])) for k, d in adocs.items())
     w = cworld.CWorld({"storage": "ram"})
     try:
         half = len(keys) // 2
@@ -54,7 +57,11 @@ def buffered_view(rng, adocs, keys):
         try:
             rd = s.reader()
             idx = cworld.abstract_index(rd, adocs)
-            obs = cworld.dump(rd, idx, w.schema, rng=rng, maxterms=10, columns=False, terminfo=False)
+            # (the statistics of every term have been read once before they are recorded: reading is idempotent)
+            for f in cworld.TEXT_FIELDS:
+                for t in list(rd.lexicon(f)):
+                    rd.term_info(f, t)
+            obs = cworld.dump(rd, idx, w.schema, rng=rng, maxterms=10, columns=False, terminfo=True)
             obs.append({"kind": "flag", "path": "BufferedWriter.searcher() shows committed + buffered documents",
                         "value": sorted(d["key"] for d in idx["docs"]) == sorted(keys)})
         finally:
